@@ -414,6 +414,18 @@ func runC03Template(in sx.SX) (sx.SX, string) {
 	if _, err2 := t.Evaluate(); err2 != nil {
 		return sx.L(sx.I(1), sx.I(98)), "rendering with the automatic variables failed: " + err2.Error()
 	}
+	// a template object whose default variables were set to the nil map (Go's zero value for "no variables")
+	t2 := mustache.NewMustacheTemplate()
+	t2.SetDefaultVariables(nil)
+	if err := t2.SetTemplate(text); err != nil {
+		return sx.L(sx.I(1), sx.I(98)), "accepted by one template object, rejected by one with nil default variables: " + err.Error()
+	}
+	if out2, err2 := t2.EvaluateWithVariables(vars); err2 != nil || out2 != out {
+		return sx.L(sx.I(1), sx.I(98)), "a template object with nil default variables renders differently"
+	}
+	if _, err2 := t2.Evaluate(); err2 != nil {
+		return sx.L(sx.I(1), sx.I(98)), "rendering with nil default variables failed: " + err2.Error()
+	}
 	return sx.L(sx.I(0), sx.S(out), names), ""
 }
 
